@@ -689,27 +689,33 @@ pub fn standard_resources() -> Vec<ResDef> {
 
 pub fn gen_cluster(r: &mut Rng, p: &Profile) -> Vec<String> {
     let tok = r.ps(&["advert", "banner", "track", "pixel", "foo"]);
-    let n = 3 + r.below(8);
+    // now and then one fusion group with 33, 34 or 65 members (group sizes around a power of two)
+    let big_group = r.chance(1, 25);
+    let n = if big_group { [33usize, 34, 65][r.below(3)] } else { 3 + r.below(8) };
     let mut out = vec![];
     // a small option pool so that masks repeat (=> fusion groups of size > 1)
     let pool: Vec<&str> = vec!["", "", "", "script", "image", "script,image", "third-party", "~third-party", "xhr"];
     // sometimes the whole cluster consists of removeparam rules (same bucket, same mask, different
     // parameter names): the category an explicit optimize() must leave alone
-    let rp_cluster = p.removeparam && r.chance(1, 8);
+    let rp_cluster = p.removeparam && !big_group && r.chance(1, 8);
     // sometimes every rule of the cluster carries a long initiator list (8-16 sites out of 24):
     // the per-rule unions of domain hashes saturate, the lists themselves still differ
     let long_domains = p.domains && !rp_cluster && r.chance(1, 6);
     for _ in 0..n {
         let mut s = String::new();
-        let exception = p.exceptions && r.chance(1, 5);
+        let exception = p.exceptions && !big_group && r.chance(1, 5);
         if exception {
             s.push_str("@@");
         }
         // long-domain clusters keep to few shapes so that masks (and hence fusion keys) coincide
-        let shape = if long_domains && r.chance(3, 4) { [0usize, 1, 11, 2][r.below(4)] } else { r.below(17) };
+        let shape = if big_group { 18 } else if long_domains && r.chance(3, 4) { [0usize, 1, 11, 2][r.below(4)] } else { r.below(18) };
         match shape {
             12 => s.push_str(&format!("/{}*{}|", tok, r.ps(&["a", "b", "x1", "ab", "a?1"]))),
             15 => s.push_str(&format!("|https://ads.net/{}/{}|", tok, r.ps(&["a", "b", "ab", "a?1"]))),
+            // hostname anchor with an empty hostname part (the pattern starts with a wildcard/separator)
+            17 => s.push_str(&format!("||{}{}/{}", r.ps(&["*", "^", "/"]), tok, r.ps(&["a", "b"]))),
+            // one of many same-shape token-less rules (one big fusion group)
+            18 => s.push_str(&format!("{}{:02}", &tok[..2], out.len())),
             // a literal longer than most request URLs (same token, so it shares the bucket)
             16 => s.push_str(&format!("/{}/{}", tok, r.ps(&["abcdefghijklmnopqrstuvwxyz0123456789abcdefghijkl", "a-very-long-path-segment-that-exceeds-any-short-url/x", "0123456789012345678901234567890123456789012345678901234567890123456789"]))),
             13 => s.push_str(&format!("|https://ads.net/{}^{}", tok, r.ps(&["", "a", "b"]))),
@@ -734,11 +740,11 @@ pub fn gen_cluster(r: &mut Rng, p: &Profile) -> Vec<String> {
             _ => s.push_str(&format!("/{}.{}", tok, r.ps(&["js", "gif", "a"]))),
         }
         let mut opts: Vec<String> = vec![];
-        let o = if long_domains { r.ps(&["", "", "script"]) } else { r.ps(&pool) };
+        let o = if big_group { "" } else if long_domains { r.ps(&["", "", "script"]) } else { r.ps(&pool) };
         if !o.is_empty() {
             opts.push(o.to_string());
         }
-        match if long_domains { 15 } else { r.below(16) } {
+        match if long_domains || big_group { 15 } else { r.below(16) } {
             0 if p.important && (!exception || r.chance(1, 3)) => opts.push("important".into()),
             1 if p.tags => opts.push(format!("tag={}", r.ps(TAGS))),
             2 if p.domains => opts.push(format!("domain={}", r.ps(HOSTS))),
